@@ -23,6 +23,7 @@ import (
 	"github.com/arloliu/go-secs/v2/hsms"
 	"github.com/arloliu/go-secs/v2/hsmsss"
 	"github.com/arloliu/go-secs/v2/logger"
+	"github.com/arloliu/go-secs/v2/secs1"
 )
 
 // ---------------------------------------------------------------------------------------------
@@ -117,7 +118,8 @@ type Ev struct {
 // Rig is one connection under test and everything around it.
 type Rig struct {
 	Active bool
-	Conn   hsmsss.Connection
+	Secs1  bool // SECS-I over TCP instead of HSMS-SS: the scripted peer only holds / reads / cuts the line
+	Conn   hsms.Connection
 	Sid    uint16
 
 	mu      sync.Mutex
@@ -210,6 +212,38 @@ func New(active bool, cfg Cfg, planFn func(n int) Plan) (*Rig, error) {
 		return nil, err
 	}
 	conn, err := hsmsss.New(c)
+	if err != nil {
+		return nil, err
+	}
+	r.Conn = conn
+	return r, nil
+}
+
+// NewSecs1 builds a SECS-I connection on the same rig (same dialer / listener / tracking). The
+// peer does not speak E4: it holds the line, reads and discards, drops or cuts per its plan — enough
+// for the life-cycle properties (a SECS-I link is Selected as soon as the TCP connection is up).
+func NewSecs1(active bool, cfg Cfg, planFn func(n int) Plan) (*Rig, error) {
+	r := &Rig{Active: active, Secs1: true, Sid: 7, planFn: planFn, lisCh: make(chan *plistener, 256), inflight: map[int64]*callRec{},
+		CloseTimeout: cfg.CloseTimeout}
+	opts := []secs1.Option{
+		secs1.WithT1(20 * time.Millisecond), secs1.WithT2(30 * time.Millisecond), secs1.WithT4(50 * time.Millisecond), secs1.WithT5(cfg.T5),
+		secs1.WithRetryLimit(1), secs1.WithDeviceID(r.Sid),
+		secs1.WithConnectionOption(hsms.WithT3(cfg.T3)), secs1.WithConnectionOption(hsms.WithReconnectBackoff(cfg.BackoffInit, cfg.BackoffMult)),
+		secs1.WithConnectionOption(hsms.WithCloseTimeout(cfg.CloseTimeout)), secs1.WithConnectionOption(hsms.WithLogger(nullLogger{})),
+	}
+	if cfg.ConnectTimeout > 0 {
+		opts = append(opts, secs1.WithConnectTimeout(cfg.ConnectTimeout))
+	}
+	if active {
+		opts = append(opts, secs1.WithActive(), secs1.WithDialer(r.dial))
+	} else {
+		opts = append(opts, secs1.WithPassive(), secs1.WithListener(r.listen))
+	}
+	c, err := secs1.NewConfig("127.0.0.1", 5000, opts...)
+	if err != nil {
+		return nil, err
+	}
+	conn, err := secs1.New(c)
 	if err != nil {
 		return nil, err
 	}
@@ -561,6 +595,22 @@ func Enc(sid uint16, b2, b3, pt, st byte, sys uint32, body []byte) []byte {
 func (p *Peer) run() {
 	defer close(p.Done)
 	defer p.Close()
+	if p.r.Secs1 {
+		if p.plan.DropAfter > 0 {
+			go func() {
+				select {
+				case <-time.After(p.plan.DropAfter):
+					p.Close()
+				case <-p.Done:
+				}
+			}()
+		}
+		for { // hold the line: read and discard (honouring the CutOut budget)
+			if _, ok := p.readN(1); !ok {
+				return
+			}
+		}
+	}
 	if p.plan.CutOut == 0 || p.plan.CutIn == 0 {
 		// a connection that dies before a single byte moves
 		if p.plan.CutOut == 0 {
